@@ -57,8 +57,10 @@ PLATFORMS = [
          platform_version="Darwin Kernel Version 21.6.0: root:xnu-8020", implementation_name="cpython", platform_python_implementation="CPython"),
     dict(sys_platform="win32", os_name="nt", platform_machine="AMD64", platform_system="Windows", platform_release="10",
          platform_version="10.0.19041", implementation_name="pypy", platform_python_implementation="PyPy"),
+    dict(sys_platform="interix", os_name="inferno", platform_machine="aarch64", platform_system="Linux", platform_release="6.0",
+         platform_version="#2", implementation_name="cpython", platform_python_implementation="CPython"),
 ]
-EXTRAS = [[], ["a"], ["b"], ["a", "b"], ["a-b", "c"]]
+EXTRAS = [[], ["a"], ["b"], ["a", "b"], ["a-b", "c"], ["internal", "b"], ["not-in", "a"]]
 def env_grid(tier="quick", rng=None):
     envs = []
     for py, pl, ex in itertools.product(INTERPRETERS, PLATFORMS, EXTRAS):
@@ -74,7 +76,8 @@ def enc_env(e):
 def impl_env(e):
     d = dict(e); d["extra"] = set(e["extra"]); return d
 
-STRVARS = {"sys_platform": ["linux", "darwin", "win32", "cygwin"], "os_name": ["posix", "nt"],
+# "interix", "inferno": values that begin with an operator word (D41)
+STRVARS = {"sys_platform": ["linux", "darwin", "win32", "cygwin", "interix"], "os_name": ["posix", "nt", "inferno"],
            "platform_machine": ["x86_64", "arm64", "AMD64", "aarch64"], "platform_system": ["Linux", "Darwin", "Windows"],
            "platform_python_implementation": ["CPython", "PyPy"], "implementation_name": ["cpython", "pypy"]}
 ALIASES = {"os_name": "os.name", "sys_platform": "sys.platform", "platform_machine": "platform.machine",
@@ -98,7 +101,7 @@ def gen_leaf(rng, focus=None):
         lit = rng.choice(["5.10", "5.10.0", "21.6.0", "10", "6.0"])
         return f"platform_release {rng.choice(['<', '<=', '>', '>=', '==', '!='])} {q(rng, lit)}", "rel"
     if kind == "extra":
-        lit = rng.choice(["a", "b", "c", "A", "a_b", "A.B", "a-b"])
+        lit = rng.choice(["a", "b", "c", "A", "a_b", "A.B", "a-b", "internal", "not-in"])
         op = rng.choice(["==", "!="])
         if rng.random() < 0.15: return f"{q(rng, lit)} {op} extra", "reversed"
         return f"extra {op} {q(rng, lit)}", "extra"
